@@ -93,7 +93,7 @@ func checkC05(c *Ctx) {
 		}
 	}
 	c.R.Count("go statements", n)
-	c.R.Floor("go statements of the library", n, 6)
+	c.R.Floor("go statements of the library", n, 4) // the three of a connection and at least one accept loop
 	// the three per-connection goroutines run user callbacks and foreign deliveries: they must recover
 	for _, fn := range []*ssa.Function{r.Processor, r.Receiver, r.Sender} {
 		c.R.Check(deferredRecover(fn), ruleP7, fn.Name()+":recovers", c.P.Pos(fn.Pos()), "deferred recover in the entry block", "the per-connection goroutine "+fn.Name()+" has no deferred recover: a panic while handling one client's packet (or in a subscriber callback) kills the broker")
